@@ -36,6 +36,27 @@ class Boom(OSError):
     """injected I/O failure (an OSError, like ENOSPC or EFBIG)"""
 
 
+class BoomInterrupt(KeyboardInterrupt):
+    """injected failure that is not an Exception: the user interrupts the program while the file is being written"""
+
+
+class BoomExit(SystemExit):
+    """injected failure that is not an Exception: sys.exit() from a signal handler while the file is being written"""
+
+
+class BoomValue(ValueError):
+    """injected failure of the serialiser (not an I/O error)"""
+
+
+BOOMS = {"os": Boom, "interrupt": BoomInterrupt, "exit": BoomExit, "value": BoomValue}
+BOOM_CLASSES = tuple(BOOMS.values())
+
+
+def boom(plan, code, msg):
+    cls = BOOMS[plan.get("kind") or "os"]
+    return cls(code, msg) if cls is Boom else cls(msg)
+
+
 class FaultyStream:
     """stands in for the buffered temporary stream: writes are kept in a buffer and reach the file when the stream is closed, as
     with a BufferedWriter holding a small document; raises at the k-th write call, or at close, where the flush fails half way
@@ -49,7 +70,7 @@ class FaultyStream:
     def write(self, data):
         self._plan["calls"] += 1
         if self._plan["fault"] is not None and self._plan["calls"] == self._plan["fault"]:
-            raise Boom(28, "injected: write %d" % self._plan["calls"])
+            raise boom(self._plan, 28, "injected: write %d" % self._plan["calls"])
         self._buf.append(bytes(data))
         return len(data)
 
@@ -64,7 +85,7 @@ class FaultyStream:
             if self._plan["fault"] is not None and self._plan["fault"] == self._plan["n_writes"] + 1 and self._plan["calls_close"] == 1:
                 self._real.write(data[:len(data) // 2])
                 self._real.close()
-                raise Boom(28, "injected: flush at close")
+                raise boom(self._plan, 28, "injected: flush at close")
             self._real.write(data)
         return self._real.close()
 
@@ -81,7 +102,7 @@ def snapshot(root):
     return out
 
 
-def run_once(doc, fmt, workdir, tmpdir, name, present, fault, n_writes):
+def run_once(doc, fmt, workdir, tmpdir, name, present, fault, n_writes, kind="os"):
     """one serialize(destination=name) in a fresh directory; returns (before, after, tmp leftovers, exception)"""
     for d in (workdir, tmpdir):
         shutil.rmtree(d, ignore_errors=True)
@@ -91,7 +112,7 @@ def run_once(doc, fmt, workdir, tmpdir, name, present, fault, n_writes):
     if present:
         open(os.path.join(workdir, name), "wb").write(OLD)
     before = snapshot(workdir)
-    plan = {"calls": 0, "calls_close": 0, "fault": fault, "n_writes": n_writes}
+    plan = {"calls": 0, "calls_close": 0, "fault": fault, "n_writes": n_writes, "kind": kind}
     real_fdopen = os.fdopen
     real_move = shutil.move
     real_tempdir = tempfile.tempdir
@@ -101,7 +122,7 @@ def run_once(doc, fmt, workdir, tmpdir, name, present, fault, n_writes):
 
     def move(src, dst, *a, **k):
         if fault is not None and fault == n_writes + 2:
-            raise Boom(18, "injected: move")
+            raise boom(plan, 18, "injected: move")
         return real_move(src, dst, *a, **k)
 
     exc = None
@@ -113,7 +134,7 @@ def run_once(doc, fmt, workdir, tmpdir, name, present, fault, n_writes):
         pm.shutil.move = move
         try:
             doc.serialize(name, format=fmt)
-        except Boom as e:
+        except BOOM_CLASSES as e:
             exc = e
         except Exception as e:  # noqa
             exc = e
@@ -352,9 +373,14 @@ def run(ctx, use_model=True):
                         if ctx.tier != "thorough" and len(faults) > 6:
                             faults = [None, 1, n_writes, n_writes + 1, n_writes + 2] + g.rng.sample(range(2, n_writes), min(2, max(0, n_writes - 2)))
                         for fault in faults:
-                            before, after, leftovers, exc, _n = run_once(doc, fmt, workdir, tmpdir, name, present, fault, n_writes)
+                            # what fails: an I/O error, an error of the serialiser, or something that is not an Exception at all
+                            # (the user's Ctrl-C, sys.exit() from a signal handler) arriving while the file is being written
+                            kind = "os" if fault is None else g.choice(["os", "os", "interrupt", "exit", "value"])
+                            before, after, leftovers, exc, _n = run_once(doc, fmt, workdir, tmpdir, name, present, fault, n_writes, kind)
                             ctx.evaluations += 1
-                            case = {"name": name, "format": fmt, "present": present, "fault": fault, "n_writes": n_writes}
+                            if fault is not None:
+                                ctx.count("failure-kind:" + kind)
+                            case = {"name": name, "format": fmt, "present": present, "fault": fault, "n_writes": n_writes, "kind": kind}
                             if fault is not None or set(name) & set("#?;:%&"):
                                 ctx.nontrivial(case)
                             key = os.path.normpath(name)
@@ -378,7 +404,7 @@ def run(ctx, use_model=True):
                                 elif got is None or (fmt == "rdf" and len(got) == 0 and len(expected_bytes) > 0):
                                     fails.append(Failure("oracle", None, "destination missing or empty after a successful write", case))
                             else:
-                                if not isinstance(exc, Boom):
+                                if not isinstance(exc, BOOMS[kind]):
                                     fails.append(Failure("oracle", None, "injected failure at step %s was swallowed (%r)" % (fault, exc), case))
                                 if got != old:
                                     fails.append(Failure("oracle", None, "after a failure at step %s of %s the destination is neither its previous content nor absent (%s bytes)" % (
@@ -492,7 +518,7 @@ def replay(ctx, case):
             if leftovers:
                 fails.append(Failure("oracle", case.get("signature"), "temporary file left behind", case))
             return fails
-        before, after, leftovers, exc, n = run_once(doc, case["format"], workdir, tmpdir, case["name"], case["present"], case["fault"], case["n_writes"])
+        before, after, leftovers, exc, n = run_once(doc, case["format"], workdir, tmpdir, case["name"], case["present"], case["fault"], case["n_writes"], case.get("kind", "os"))
         key = os.path.normpath(case["name"])
         if leftovers:
             fails.append(Failure("oracle", case.get("signature"), "temporary file left behind", case))
